@@ -378,9 +378,19 @@ func openTrip(es []flap.VerifFlight) (start flap.EpochTime, n int) {
 	return
 }
 
+// midByMarkers: mid-trip decided from the stored markers, independently of TripHistory.MidTrip()
+func (s *thSession) midByMarkers() bool {
+	e := s.th.VerifEntries()[0]
+	m := e.Start == 0 || (e.Et != 2 && e.Et != 3)
+	if m != s.th.MidTrip() {
+		s.fail("C05", "midtrip-disagrees-with-markers", fmt.Sprintf("MidTrip() = %v but the newest flight carries marker %d", s.th.MidTrip(), e.Et))
+	}
+	return m
+}
+
 func (s *thSession) update(p thParams, now uint64, rng *Rng) int64 {
 	before := s.th.VerifEntries()
-	wasMid := s.th.MidTrip()
+	wasMid := s.midByMarkers()
 	rp := p.real()
 	dy, fy, err := s.th.Update(&rp, flap.EpochTime(now))
 	code := thErrCode(err)
@@ -404,7 +414,7 @@ func (s *thSession) update(p thParams, now uint64, rng *Rng) int64 {
 	}
 	if code == 0 || code == 6 {
 		// C05: nobody mid-trip beyond the limits
-		if s.th.MidTrip() && after[0].Start != 0 {
+		if s.midByMarkers() && after[0].Start != 0 {
 			st, n := openTrip(after)
 			db := int64(flap.VerifDaysBetween(st, flap.EpochTime(now)))
 			if db > p.TL {
@@ -414,7 +424,7 @@ func (s *thSession) update(p thParams, now uint64, rng *Rng) int64 {
 				s.fail("C05", "mid-trip-with-max-flights", fmt.Sprintf("after Update(now=%d) still mid-trip with %d flights in the open trip, FlightsInTrip %d", now, n, p.FIT))
 			}
 		}
-		if wasMid && !s.th.MidTrip() {
+		if wasMid && !s.midByMarkers() {
 			st, n := openTrip(before)
 			if int64(flap.VerifDaysBetween(st, flap.EpochTime(now))) > p.TL || int64(n) >= p.FIT {
 				s.limitClosures++
@@ -422,13 +432,13 @@ func (s *thSession) update(p thParams, now uint64, rng *Rng) int64 {
 		}
 		// C05: an ended trip stays ended until a flight is added/removed or the trip reopened
 		if s.closedAfterUpdate && !s.touchedSinceUpdate {
-			if s.th.MidTrip() {
+			if s.midByMarkers() {
 				s.fail("C05", "ended-trip-reopened-by-update", fmt.Sprintf("trip was ended after the previous update, nothing was added, removed or reopened, yet Update(now=%d) left the traveller mid-trip", now))
 			} else {
 				s.closedKept++
 			}
 		}
-		s.closedAfterUpdate = !s.th.MidTrip()
+		s.closedAfterUpdate = !s.midByMarkers()
 		s.touchedSinceUpdate = false
 	}
 	s.checkStructure("update")
